@@ -149,6 +149,14 @@ Theorem C02_history_wf : forall ops fr, afrag_wf fr = true -> afrag_wf (snd (run
 Proof. exact run_hist_frag_wf. Qed.
 Print Assumptions C02_history_wf.
 
+Theorem C02_history_wf_segment : forall ops s, aseg_wf (snd (run_hist aseg_step s ops)) = aseg_wf s.
+Proof. exact (run_hist_wf aseg_step aseg_wf aseg_step_wf). Qed.
+Print Assumptions C02_history_wf_segment.
+
+Theorem C02_history_wf_file : forall ops f, afile_wf (snd (run_hist afile_step f ops)) = afile_wf f.
+Proof. exact (run_hist_wf afile_step afile_wf afile_step_wf). Qed.
+Print Assumptions C02_history_wf_file.
+
 (* ---- the fragments of the C05 model (children tfhd, tfdt, truns, no other boxes) sit inside this model with
         the same Size() and the same truns *)
 Theorem C02_c05_moof_size : forall seq fr,
